@@ -143,8 +143,25 @@ def handoff_replies_case(rng, variant):
 _gen_cases_c04 = gen_cases
 
 
+def huge_skip_replies_case(rng, P, pad, sched):
+    """reply-owing records around an ignored/answered record whose content + padding exceeds 65535 bytes, on a buffer above 64 KiB,
+    delivered in one read (or cut near the end of its body): exactly the owed replies, nothing invented out of the padding"""
+    t = rng.choice([0x50, 0x63, 200])
+    fake = flat([record(rng.choice([0x63, 0x21]), 0, [], 0)])          # 8 padding bytes that look like an unknown-type record header
+    padding = (fake * 40)[:pad]
+    huge = header(t, rng.choice([0, 1]), P, pad) + [rng.randrange(256) for _ in range(P)] + padding
+    gv = record(GETVALUES, 0, gv_body(rng), rng.choice([0, 3]))
+    where = rng.choice(["idle", "params"])
+    pre = minimal_preamble(1, 1, pairs=[(b"A", b"b")])
+    w = (huge + gv + flat(pre)) if where == "idle" else (flat(pre[:1]) + huge + gv + flat(pre[1:]))
+    return case("req_run", [rng.choice([70000, 131072])], [rng.choice([1, 77])], w, sched), ["req", "huge-skip"]
+
+
 def gen_cases(rng, tier):
     yield from _gen_cases_c04(rng, tier)
+    for (P, pad) in ((65535, 255), (65281, 255), (65400, 200)):
+        for sched in ([], [10 ** 6], [8 + P, 10 ** 6], [8 + P + pad // 2, 10 ** 6]):
+            yield huge_skip_replies_case(rng, P, pad, sched)
     for variant in (0, 1):
         for _ in range(6 if tier == "quick" else 300):
             yield handoff_replies_case(rng, variant)
